@@ -669,7 +669,9 @@ pub fn run(args: &Args) {
     }
 
     // ---- which cases also go to the Coq model ---------------------------------------------------
-    let coq_budget: usize = if args.thorough { 6000 } else { 750 };
+    let coq_budget: usize = if args.thorough { 6000 } else { 420 };
+    // hard ceiling on the number of Coq cases (the budget above steers the strides and should stay below it)
+    let coq_cap: usize = if args.thorough { 12000 } else { 1600 };
     // budget split: damaged valid encodings 66 %, enumerated 14 %, random 14 %, long inputs with a lying length 6 %
     let kind_of = |s: &Src| -> usize { let b = match s { Src::Sub { inner, .. } => &**inner, x => x }; match b { Src::Mut { .. } => 0, Src::Enum { .. } => 1, Src::Rand { .. } => 2, _ => 3 } };
     // long inputs go to Coq only for models that run in linear time (the sequence decoders re-measure the
@@ -684,7 +686,10 @@ pub fn run(args: &Args) {
         Src::Explicit { cases } => if cases.iter().any(|c| ps[c.0].model != 0) { 1 } else { 0 },
         _ => if modelled(s) {
             let k = kind_of(s);
-            let st = (kind_total[k] * 100 / (coq_budget * share[k]).max(1)).max(1);
+            let mut st = (kind_total[k] * 100 / (coq_budget * share[k]).max(1)).max(1);
+            // the file / table loaders (header checks with narrow windows of file lengths) are sampled three
+            // times as densely as the 30-odd varint cells that share one model
+            if s.parser().map(|p| matches!(ps[p].model, 90 | 91 | 103 | 104 | 140 | 141 | 142)).unwrap_or(false) { st = (st / 3).max(1); }
             // odd stride: walks through every mutation kind
             if s.len() <= 2 { 1 } else { st | 1 }
         } else { 0 },
@@ -753,7 +758,7 @@ pub fn run(args: &Args) {
         let mut cj = case_json(name, arg, &bytes, origin);
         cj["observed"] = json!(format!("{}: {}", f.kind, f.msg));
         sum.fail(name, class, cj, &format!("{} returned neither a value nor an error: {} ({}) on a {} input of {} bytes, arg {}", name, f.kind, f.msg, origin, bytes.len(), arg));
-        if ps[p].model != 0 && coq_len(&bytes) <= 600 && shards.len() < 2 * coq_budget {
+        if ps[p].model != 0 && coq_len(&bytes) <= 600 && shards.len() < coq_cap {
             let term = coq_case(ps[p].model, arg, &aux_for(p, &bytes), &bytes, 2, &[]);
             let mut cj2 = case_json(name, arg, &bytes, origin);
             cj2["impl_obs"] = json!(format!("crash: {}", f.kind));
@@ -764,7 +769,9 @@ pub fn run(args: &Args) {
     for o in &res.obs {
         if failed.contains(&(o.src, o.i)) { continue; }
         let (p, arg, bytes, origin) = srcs[o.src].get(o.i);
-        if ps[p].model == 0 || coq_len(&bytes) > 600 || shards.len() >= 2 * coq_budget { continue; }
+        if ps[p].model == 0 || coq_len(&bytes) > 600 { continue; }
+        sum.dist("coq_cases_before_cap");
+        if shards.len() >= coq_cap { continue; }
         // rANS: an expected length the model would have to materialise symbol by symbol
         if (120..=123).contains(&ps[p].model) && arg > (1 << 16) && arg <= 100 * 1024 * 1024 { continue; }
         let term = coq_case(ps[p].model, arg, &aux_for(p, &bytes), &bytes, o.code, &o.vals);
